@@ -4,13 +4,16 @@ HOOKS = {
               "compile /repo's sources through symlinks)",
     "baseline_off_cmd": "cd /repo && cargo nextest run --workspace --no-fail-fast --tool-config-file "
                         "pb:/w/lib/nextest.toml --profile pb --test-threads 8 --offline",
-    "source_commits": [],
+    "source_commits": ["e2ad724", "3a73802", "1c721a0", "41fe99d", "254b2fc", "88d9964"],
     "add_only": True,
 }
 
 ENGINES = [
     {"name": "tlc", "path": "/verif/lib/vlib/tlc.py", "kind_free_text": "TLC 1.8 explicit-state model checker over spec/*.tla",
      "serves_properties": []},
+    {"name": "harness-agent", "path": "/verif/harness/agent", "serves_properties": ["C02", "C19"],
+     "kind_free_text": "cargo crate compiling /repo/proxy_agent/src through symlinks with the verif cfg; drivers: "
+                       "function tables, proxy rig (real ProxyServer + mock hosts in a netns), disk, ..."},
     {"name": "harness-ext", "path": "/verif/harness/ext", "serves_properties": ["C20"],
      "kind_free_text": "cargo crate compiling /repo/proxy_agent_extension/src through symlinks; replays TLC graphs"},
 ]
@@ -21,6 +24,32 @@ NOTES = ("Every check: bin/check <id> --tier quick|thorough. TLA+ specs in spec/
 NOT_APPLICABLE = {}
 
 CHECKS = {
+    "C02": {
+        "text": "TLC enumerates three complete small universes of (rule document, caller, URL) -- every privilege "
+                "path/query shape, every grant-chain shape with dangling and duplicate names and absent sections -- "
+                "evaluates the declared semantics (Rbac!Decision, written on sets and lower-cased values from the "
+                "statement) and its algebra (permutation/case invariance, disabled allows, matched-not-granted denies, "
+                "no-match gives default) on every case, and prints each case with the expected decision; the real "
+                "serde -> from_authorization_item -> is_allowed path is evaluated on every case plus list permutations "
+                "and upper-casings of rule side and request side. Any difference is a violation (classified "
+                "structurally for known findings).",
+        "note": "Trusts TLC and the transcription of the statement in Rbac.tla. Ambiguity of the statement for repeated "
+                "query keys is resolved by accepting both readings. Universe bounded (<=2 of each list, pools of names).",
+        "technique": "TLA+ declared-semantics spec; TLC exhaustive case enumeration; spec->impl function-table replay",
+        "design_ref": "DESIGN.md §3 Rbac.tla",
+    },
+    "C19": {
+        "text": "DiskBounds.tla models the rolling logger, the event directory cap and the rule-dump rotation in the "
+                "shape of the code (stateless re-open per write, roll-before-append, oldest-first trimming) with "
+                "pre-filled directories and restarts; TLC checks the count/size bounds after every step exhaustively "
+                "for small constants; TLC-generated behaviours are replayed on the real RollingLogger / event_logger / "
+                "write_all comparing the directory listing after every operation, and long random histories with the "
+                "real constants are validated by TLC against the property-level trace spec.",
+        "note": "One writer per log, wall clock monotone between rolls/dumps (oldest decided by name). Kill between "
+                "system calls inside a roll is outside C19's quantifier (reported as coverage.crash_window).",
+        "technique": "TLA+ spec + TLC model checking; spec->impl behaviour replay; impl->spec trace validation",
+        "design_ref": "DESIGN.md §3 DiskBounds.tla",
+    },
     "C20": {
         "text": "TLC explores the complete reachable graph of the health automaton and the notification rate limiter "
                 "at the real constants (20 / 10000 / 120) and checks C20's invariants in every state; every edge of "
